@@ -21,6 +21,9 @@
   "native_replay": true,
   "object_bits": 10,
   "timeout": 500,
+  "timeout_thorough": 2400,
+  "mem_gb_thorough": 28,
+  "weight_gb_thorough": 24,
   "weight_gb": 4
 }
 @*/
